@@ -1,8 +1,15 @@
 (** Correspondence cases for C06: the GLM model on binary64 with the recorded libm table; the inner
     [solve] / [invert_matrix] are answered from the recorded calls of the crate's own functions
-    (bit-equal argument; a miss is a disagreement: the model is run with two different miss values). *)
+    (bit-equal argument; a miss is a disagreement: the model is run with two different miss values).
+
+    END-TO-END cases ([CFitE]): nothing but libm is recorded.  [solve] and [inv] are C01's executable models
+    of [solve] and [invert_matrix] ([slice_solve], [slice_invert], Model/SolveInst.v) run on binary64, so one
+    scoring step from an observed state, whole fits, the covariance matrix / standard errors and the
+    predictions are reproduced bit for bit by one Gallina term.  The recorded-table cases are kept: they
+    localise a disagreement (inside the linear solve / around it). *)
 From Coq Require Import List Floats ZArith Bool.
-From Compute Require Export Base.Ops Base.ListMat Model.Reduce Model.MatMul Generated.glm_families Model.GLM.
+From Compute Require Export Base.Ops Base.ListMat Model.Reduce Model.MatMul Generated.glm_families Model.GLM
+  Model.Subst Model.Cholesky Model.LU Model.Solve Model.SolveInst.
 Import ListNotations.
 
 Definition solve_tbl := list (list float * list float * outcome (list float)).
@@ -28,6 +35,10 @@ Inductive case :=
 | CFit (t : libm_table) (st : solve_tbl) (it : inv_tbl) (f : family) (alpha tol : float)
        (w off : option (list float)) (x y : list float) (max_iter : nat)
        (start : option (list float * float)) (xnew : list float)
+       (e_fit e_cov e_pred : outcome (list float))
+| CFitE (t : libm_table) (f : family) (alpha tol : float)
+       (w off : option (list float)) (x y : list float) (max_iter : nat)
+       (start : option (list float * float)) (xnew : list float)
        (e_fit e_cov e_pred : outcome (list float)).
 
 Definition b2f (b : bool) : float := if b then 0%float else 1%float.
@@ -39,6 +50,23 @@ Definition check_fit (miss : float) (t : libm_table) (st : solve_tbl) (it : inv_
   let O := FO t in
   let iv := lookup_inv miss it in
   match fit_from O (lookup_solve miss st) f alpha tol w off x y max_iter start with
+  | None => fout_eqb Panic e_fit
+  | Some ft =>
+      fout_eqb (opt_out (let* d := dispersion O f ft in
+                         Some (b2f (f_ok ft) :: f_coef ft ++ [f_dev ft; aic O ft; bic O ft; d]))) e_fit
+      && fout_eqb (opt_out (let* c := coef_covariance_matrix O iv f ft in
+                            let* s := coef_standard_error O iv f ft in Some (c ++ s))) e_cov
+      && fout_eqb (opt_out (predict O f off ft xnew)) e_pred
+  end.
+
+(** the same comparison with the inner routines computed by C01's model instead of looked up *)
+Definition check_fit_e2e (t : libm_table) (f : family) (alpha tol : float)
+       (w off : option (list float)) (x y : list float) (max_iter : nat)
+       (start : option (list float * float)) (xnew : list float)
+       (e_fit e_cov e_pred : outcome (list float)) : bool :=
+  let O := FO t in
+  let iv := slice_invert O in
+  match fit_from O (slice_solve O) f alpha tol w off x y max_iter start with
   | None => fout_eqb Panic e_fit
   | Some ft =>
       fout_eqb (opt_out (let* d := dispersion O f ft in
@@ -62,4 +90,6 @@ Definition check (c : case) : bool :=
   | CFit t st it f alpha tol w off x y max_iter start xnew e_fit e_cov e_pred =>
       check_fit nan t st it f alpha tol w off x y max_iter start xnew e_fit e_cov e_pred
       && check_fit 0%float t st it f alpha tol w off x y max_iter start xnew e_fit e_cov e_pred
+  | CFitE t f alpha tol w off x y max_iter start xnew e_fit e_cov e_pred =>
+      check_fit_e2e t f alpha tol w off x y max_iter start xnew e_fit e_cov e_pred
   end.
